@@ -91,8 +91,9 @@ StepT(s, t) ==
                 k  == IF "k" \in DOMAIN op THEN op.k ELSE 0
                 s2 == [s1 EXCEPT !.th[t] = [@ EXCEPT !.k = k, !.c = IF "c" \in DOMAIN op THEN op.c ELSE Absent,
                                                      !.seen = IF k = 0 THEN {} ELSE {s.idx[k]}, !.res = "none"]]
-            IN (CASE op.op = "put" -> At(s2, t, "staged")
-                 [] op.op = "abort" -> Ret(s2, t, "ok", 0)
+            IN (CASE op.op \in {"put", "txfinish"} -> At(s2, t, "staged")
+                 \* an aborted transaction, and the beginning of one that stays open, touch nothing shared
+                 [] op.op \in {"abort", "txbegin", "txabort"} -> Ret(s2, t, "ok", 0)
                  [] op.op \in {"get", "size", "range", "reader", "del", "delr", "guard"} -> At(s2, t, "Sr:read")
                  [] op.op = "unguard" -> Ret([s2 EXCEPT !.ug = @ \ {t}], t, "ok", 0)
                  [] op.op = "ckpt" -> At(s2, t, "Sw:ckpt")
@@ -110,7 +111,7 @@ StepT(s, t) ==
       [] p \in {"I:put", "I:rm"} -> At([s1 EXCEPT !.lkI = t], t, "Sw:apply")
       [] p = "Sw:apply" -> At([s1 EXCEPT !.lkS = t, !.wq = @ \ {t}], t, "W:apply")
       [] p = "W:apply" ->
-            LET isPut  == CurOp(s, t).op = "put"
+            LET isPut  == CurOp(s, t).op \in {"put", "txfinish"}
                 lop    == IF isPut THEN PutOp(me.k, me.c) ELSE RmOp(me.keys)
                 x      == ApplyOp(IxOf(s.idx), lop)
                 preSeg == IF s.nv = 1 THEN 0 ELSE SegOf(s.nv - 1, s.n)
@@ -130,12 +131,12 @@ StepT(s, t) ==
       [] p = "unlocked" ->
             IF me.rolled THEN At(s1, t, "Sw:roll")
             ELSE LET op == CurOp(s, t) IN
-                 Ret(s1, t, IF op.op = "put" THEN "ok" ELSE IF op.op = "del" THEN "true" ELSE "count", Len(me.keys))
+                 Ret(s1, t, IF op.op \in {"put", "txfinish"} THEN "ok" ELSE IF op.op = "del" THEN "true" ELSE "count", Len(me.keys))
       [] p \in {"Sw:roll", "Sw:ckpt"} -> At([s1 EXCEPT !.lkS = t, !.wq = @ \ {t}], t, IF p = "Sw:roll" THEN "W:roll" ELSE "W:ckpt")
       [] p \in {"W:roll", "W:ckpt"} ->
             LET s2 == [s1 EXCEPT !.lp = s.nv - 1, !.lkS = 0]
                 op == CurOp(s, t) IN
-            Ret(s2, t, IF op.op \in {"put", "ckpt"} THEN "ok" ELSE IF op.op = "del" THEN "true" ELSE "count", Len(me.keys))
+            Ret(s2, t, IF op.op \in {"put", "txfinish", "ckpt"} THEN "ok" ELSE IF op.op = "del" THEN "true" ELSE "count", Len(me.keys))
       [] p = "Sr:read" ->
             LET op == CurOp(s, t) IN
             (CASE op.op = "guard" -> Ret([s1 EXCEPT !.ug = @ \cup {t}], t, "ok", 0)     \* a user keeps an IndexReadGuard
